@@ -149,9 +149,25 @@ def close_pool():
         _POOL = None
 
 
-def run_impl_many(flavor, cases, timeout=6):
+def run_impl_many(flavor, cases, timeout=6, slow_retries=4):
     """run every case on the real engine in the worker pool; a worker that stops answering (a hang the
-    in-process watchdog could not unwind) makes the whole batch fall back to one-by-one execution"""
+    in-process watchdog could not unwind) makes the whole batch fall back to one-by-one execution.
+    A case the (short) watchdog cut is run once more on its own with a generous watchdog before it is reported as a
+    hang - a loaded machine can starve a worker for seconds - for at most `slow_retries` cases per call, so that a
+    library that really hangs on many inputs does not cost minutes."""
+    res = _run_impl_many(flavor, cases, timeout)
+    left = slow_retries
+    for i, (st, _o) in enumerate(res):
+        if st == "hang" and left > 0:
+            left -= 1
+            try:
+                res[i] = pool().apply_async(_impl_worker, ((flavor, cases[i], 30),)).get(45)
+            except mp.TimeoutError:
+                close_pool()
+    return res
+
+
+def _run_impl_many(flavor, cases, timeout=6):
     args = [(flavor, c, timeout) for c in cases]
     budget = 60 + (timeout + 1) * (len(cases) / 4 + 1)
     try:
